@@ -1358,8 +1358,8 @@ func TestC01_R_FileEmbeddingItsOwnBlocks(t *testing.T) {
 			t.Fatalf("harness: interior block of %d bytes for chunk size %d", len(block), c.cs)
 		}
 		// the first w chunks are grouped under a node with exactly these bytes; the next chunk IS these bytes
+		// (as the last, shorter chunk: the size chunker would otherwise fill it up with what follows)
 		data := append(append([]byte{}, prefix...), block...)
-		data = append(data, lcgBytes(c.cs+7, 99, 0)...)
 		st := NewStore()
 		root, _, err := buildFile(st, data, fmt.Sprintf("size-%d", c.cs), c.w)
 		if err != nil {
